@@ -231,11 +231,12 @@ class DiscriminatorEnumCollector:
 
         # Build reverse mapping from variant schema names to discriminator values
         # This helps when property enums have been unified and we can't get the value from the property
-        discriminator_value_by_variant: dict[str, str] = {}
+        # (several values may map to the same variant)
+        discriminator_values_by_variant: dict[str, list[str]] = {}
         if discriminator.mapping:
             for disc_value, variant_ref in discriminator.mapping.items():
                 variant_name = variant_ref.split("/")[-1]  # Extract schema name from $ref
-                discriminator_value_by_variant[variant_name] = disc_value
+                discriminator_values_by_variant.setdefault(variant_name, []).append(disc_value)
 
         # Collect values
         enum_values: list[tuple[str, Any]] = []
@@ -291,12 +292,11 @@ class DiscriminatorEnumCollector:
 
             # If still no resolved enum, use the discriminator mapping as fallback
             # This handles cases where the property enum was already unified by another discriminated union
-            if not resolved_enum_values and variant_schema.name in discriminator_value_by_variant:
-                disc_value = discriminator_value_by_variant[variant_schema.name]
-                resolved_enum_values = [disc_value]
+            if not resolved_enum_values and variant_schema.name in discriminator_values_by_variant:
+                resolved_enum_values = list(discriminator_values_by_variant[variant_schema.name])
                 logger.debug(
                     f"DiscriminatorEnumCollector: Resolved enum value for discriminator property '{property_name}' "
-                    f"in variant '{variant_schema.name}' from discriminator mapping: '{disc_value}'."
+                    f"in variant '{variant_schema.name}' from discriminator mapping: {resolved_enum_values}."
                 )
 
             # If still no enum values found, skip variant
